@@ -131,29 +131,34 @@ def insertByPos (s : Store) (blk : BlockMeta) (id : TxId) (pos : Nat) : List TxI
     | some loc => if loc.2 > pos then id :: t :: rest else t :: insertByPos s blk id pos rest
     | none => t :: insertByPos s blk id pos rest
 
-/-- insertMinedTxForImporting: merge into the block / tx records (reorg detection by the stored block
-    hash), spend the credits the relevant inputs consume, then — like insertMinedTx — let the mined
-    transaction supersede its unmined record and remove unmined double spends. -/
-def insertMinedTxForImporting (own : Own) (s : Store) (bals : AMap.T Wid Nat) (tr : TxRec) (blk : BlockMeta) :
-    Except InsErr (Store × AMap.T Wid Nat) := do
-  let exists_ := (AMap.get s.txrecs (tr.tx.id, blk)).isSome
-  let s ← match AMap.get s.blocks blk.height with
+/-- insertMinedTxForImporting, first part: merge the transaction into the block / tx records — reorg detection by
+    the stored block hash, block-position insertion, nothing written when the tx record exists already -/
+def recordForImporting (s : Store) (tr : TxRec) (blk : BlockMeta) : Except InsErr Store :=
+  if (AMap.get s.txrecs (tr.tx.id, blk)).isSome then
+    match AMap.get s.blocks blk.height with
+    | none => .error (.ledger (.other "tx record exists but block record not"))
+    | some (h, _) => if h ≠ blk.hash then .error .chainReorg else .ok s
+  else
+    match AMap.get s.blocks blk.height with
     | none =>
-      if exists_ then throw (.ledger (.other "tx record exists but block record not"))
-      else pure { s with blocks := AMap.put s.blocks blk.height (blk.hash, [tr.tx.id]) }
+      .ok { s with blocks := AMap.put s.blocks blk.height (blk.hash, [tr.tx.id]),
+                   txrecs := AMap.put s.txrecs (tr.tx.id, blk) tr.loc }
     | some (h, txs) =>
-      if h ≠ blk.hash then throw .chainReorg
-      else if exists_ then pure s
-      else pure { s with blocks := AMap.put s.blocks blk.height (h, insertByPos s ⟨blk.height, h⟩ tr.tx.id tr.loc.2 txs) }
-  let s := if exists_ then s else { s with txrecs := AMap.put s.txrecs (tr.tx.id, blk) tr.loc }
-  let (s, bals) ← match updateMinedBalance s bals tr blk with
-    | .ok r => pure r
-    | .error e => throw (.ledger e)
-  let s := if (AMap.get s.pending tr.tx.id).isSome then
-      let s := deleteUnminedCredits s tr.tx
-      { s with pending := AMap.erase s.pending tr.tx.id }
-    else s
-  pure (removeDoubleSpends own s tr, bals)
+      if h ≠ blk.hash then .error .chainReorg
+      else .ok { s with blocks := AMap.put s.blocks blk.height (h, insertByPos s ⟨blk.height, h⟩ tr.tx.id tr.loc.2 txs),
+                        txrecs := AMap.put s.txrecs (tr.tx.id, blk) tr.loc }
+
+/-- insertMinedTxForImporting: merge into the block / tx records, spend the credits the relevant inputs consume,
+    then — like insertMinedTx — let the mined transaction supersede its unmined record (`unpendMined`) and remove
+    unmined double spends. -/
+def insertMinedTxForImporting (own : Own) (s : Store) (bals : AMap.T Wid Nat) (tr : TxRec) (blk : BlockMeta) :
+    Except InsErr (Store × AMap.T Wid Nat) :=
+  match recordForImporting s tr blk with
+  | .error e => .error e
+  | .ok s =>
+    match updateMinedBalance s bals tr blk with
+    | .error e => .error (.ledger e)
+    | .ok (s, bals) => .ok (removeDoubleSpends own (unpendMined s tr.tx) tr, bals)
 
 /-- AddRelevantTxForImporting -/
 def addRelevantTxForImporting (p : Params) (own : Own) (s : Store) (bals : AMap.T Wid Nat) (tr : TxRec)
